@@ -70,6 +70,17 @@ def divisor_class(crate, den):
     return 'other'
 
 
+def _den(crate, f, dv):
+    """the divisor, a captured one in terms of the function that built the closure"""
+    if f.is_closure:
+        import q
+        try:
+            return q.resolve_captures(crate, f, dv['den'])
+        except Exception:
+            return dv['den']
+    return dv['den']
+
+
 def orphan_audits(ctx):
     """audited divisions whose function no longer contains an (unguarded) division of that class: the audited
     computation was moved (into a new helper, a renamed or reshaped function)"""
@@ -84,7 +95,7 @@ def orphan_audits(ctx):
                 cl, okflag, info = e2.classify_division(f, dv)
                 if cl in ('literal', 'guarded'):
                     continue
-                dclass = divisor_class(crate, dv['den'])
+                dclass = divisor_class(crate, _den(crate, f, dv))
                 for a in AUDITED:
                     if base.endswith(a[0]) and a[1] == dclass:
                         present.add((a[0], a[1]))
@@ -128,7 +139,7 @@ def run(ctx, pid, rule_prefix=None):
                 count += 1
                 base = f.name.split('::{closure')[0]
                 cl, okflag, info = e2.classify_division(f, dv)
-                dclass = divisor_class(crate, dv['den'])
+                dclass = divisor_class(crate, _den(crate, f, dv))
                 n = per_class.get((cl, dclass), 0)
                 per_class[(cl, dclass)] = n + 1
                 key = '%s:%s:%s%s' % (rule, base, dclass, '' if n == 0 else '#%d' % n)
